@@ -102,6 +102,8 @@ def discharge(obligations, timeout_ms=10000, jobs=None, use_cvc5=True):
         i = int(name)
         ob = obligations[i]
         if ob.kind == "cover":
+            # a quantified precondition usually makes the sat check 'unknown'; only a *refuted* cover
+            # (unsat: contradictory precondition) is an error.  Unknown covers are reported as such.
             status = {"sat": "covered", "unsat": "vacuous"}.get(r, "cover-unknown")
         else:
             status = {"unsat": "proved", "sat": "refuted"}.get(r, "unknown")
